@@ -9,6 +9,7 @@ import (
 	"os"
 	"os/exec"
 	"path/filepath"
+	"runtime"
 	"runtime/debug"
 	"strings"
 
@@ -373,7 +374,17 @@ func c16ProcTask(nClients, depth int, children bool) func(res *TaskResult) {
 					Detail: fmt.Sprintf("%d clients (%s), events %v\ntranscript: %s\n%s", nClients, mode, evs, tr, d),
 					Replay: mustJSON(map[string]any{"engine": "proc", "property": "C16", "clients": nClients, "children": mode == "child-processes", "events": evs})})
 			}
+			if procSeq%100 == 0 {
+				// between sequences nobody holds anything: let finalizers close descriptors leaked by failed Opens
+				// (data files opened before the failure are never closed by Open itself), else EMFILE
+				runtime.GC()
+				runtime.GC()
+			}
 			tr1, v1 := runProcSeq(inproc, evs, root, res)
+			if strings.HasPrefix(v1, "setup:") {
+				res.Err = "C16 harness: " + v1
+				return false
+			}
 			if v1 != "" {
 				mkViol("in-process", tr1, v1)
 				// a leaked lock poisons the process: fresh clients (the descriptors stay leaked, directories differ)
